@@ -30,6 +30,11 @@ def scenario_frames(case):
         lat, lon = F.destination(rx[0], rx[1], ac["bearing"], ac["km"])
         fs = []
         df = 18 if ac.get("df18") else 17  # TIS-B / ADS-R / non-transponder carrier
+        if ac.get("first_other"):
+            # the aircraft is first heard with a squitter that is neither identification, position
+            # nor velocity: operation status (31), target state (29), aircraft status (28)
+            me = bytes.fromhex(["f8210002004ab8", "ea1b785e8f3c08", "e1108500000000"][(ac["first_other"] - 1) % 3])
+            fs.append(F.squitter(a, me, df=df))
         if ac.get("callsign"):
             fs.append(F.ident(a, ac["callsign"], df=df))
         if ac.get("position", True):
@@ -352,7 +357,9 @@ def run_case(case):
             gpsd.report(rx[0], rx[1])
             if not s.wait_for(lambda: s.log_text().count("[gpsd] lat:") >= 2, 8.0):
                 raise Inconclusive("the gpsd fixes were not received")
-            time.sleep(0.4)
+            # what follows a fix on a real receiver is not another fix
+            gpsd.chatter()
+            time.sleep(0.5)
         all_frames = []
         markers = {}
         seen_blue = set()
@@ -629,6 +636,8 @@ def classify(case):
         cls.append("receiver position from gpsd")
     if any(ac.get("df18") for ac in case["aircraft"]):
         cls.append("aircraft heard via DF18")
+    if any(ac.get("first_other") for ac in case["aircraft"]):
+        cls.append("aircraft first heard with a status / target-state squitter")
     return cls, (len(quad) >= 2 and bool(case.get("view")))
 
 
@@ -645,6 +654,7 @@ def worker(args):
         "velocity": st.one_of(st.none(), st.tuples(st.integers(-400, 400), st.integers(-400, 400))),
         "extra": st.integers(0, 3),
         "df18": st.sampled_from([False, False, False, True]),
+        "first_other": st.sampled_from([0, 0, 0, 1, 2, 3]),
     })
     view = st.one_of(
         st.tuples(st.just("zoom"), st.sampled_from([-6, -3, -1, 1, 2, 4])),
